@@ -1,4 +1,6 @@
 import PegVerif.Proofs.RefineRule
+import PegVerif.Proofs.Complete
+import PegVerif.Proofs.Boundary
 /-
   C01 – generated parsers recognise exactly the PEG language of the grammar.
 
@@ -50,6 +52,45 @@ theorem C01_deterministic (env : Env) (hp : PureHooks env.hooks) (hnl : NoLeftre
   obtain ⟨m, hm⟩ := C01_sound env hp hnl rule inp u n h
   obtain ⟨m', hm'⟩ := C01_sound env hp hnl rule inp u n' h'
   exact C01_unique env u rule inp hm hm'
+
+/-- **Completeness.** Whenever the PEG reading answers, the generated parser (model) answers too,
+    with enough fuel, and abstracts to the same answer – in particular it terminates exactly when the
+    PEG reading does ("the parse terminates" for every grammar/input on which PEG semantics is
+    defined; the unconditional termination statement for syntactically well-formed grammars is not
+    proved – see DESIGN.md). -/
+theorem C01_complete (env : Env) (hp : PureHooks env.hooks) (hnl : NoLeftrec env.g) (rule : String)
+    (inp : List UInt8) (u m : Nat) {r} (h : Spec.parse env u m rule inp = some r) :
+    ∃ n r' g', parseAdvanced env n rule inp u = some (r', g') ∧ abs r' = r :=
+  parse_complete env hp hnl rule inp u m h
+
+/-! ### terminals match exactly the characters the syntax reference says (at a character boundary
+    of valid UTF-8: `At cs pre rem s` = consumed `pre`, remaining `rem`) -/
+
+theorem C01_char_literal {cs pre rem : List Char} {s : St} (hat : At cs pre rem s) (c v : Char) (s' : St) :
+    parseCharacterLiteral s c = .ok v s' ↔
+      v = c ∧ ∃ r, rem = c :: r ∧ s' = { s with rest := enc r, off := s.off + c.utf8Size } ∧ At cs (pre ++ [c]) r s' :=
+  parseCharacterLiteral_ok_iff hat
+
+theorem C01_char_range {cs pre rem : List Char} {s : St} (hat : At cs pre rem s) (lo hi v : Char) (s' : St) :
+    parseCharacterRange s lo hi = .ok v s' ↔
+      ∃ r, rem = v :: r ∧ lo ≤ v ∧ v ≤ hi ∧ s' = { s with rest := enc r, off := s.off + v.utf8Size } ∧ At cs (pre ++ [v]) r s' :=
+  parseCharacterRange_ok_iff hat
+
+theorem C01_string_literal {cs pre rem : List Char} {s : St} (hat : At cs pre rem s) (l : List Char) (v : Unit) (s' : St) :
+    parseStringLiteral s l = .ok v s' ↔
+      ∃ t, rem = l ++ t ∧ s' = { s with rest := enc t, off := s.off + (enc l).length } ∧ At cs (pre ++ l) t s' :=
+  parseStringLiteral_ok_iff hat
+
+theorem C01_end_of_input {cs pre rem : List Char} {s : St} (hat : At cs pre rem s) (v : Unit) (s' : St) :
+    parseEndOfInput s = .ok v s' ↔ rem = [] ∧ s' = s :=
+  parseEndOfInput_ok_iff hat
+
+theorem C01_insensitive_literal {cs pre rem : List Char} {s : St} (hat : At cs pre rem s) (l : List Char)
+    (hl : l.all isAscii = true) (v : Unit) (s' : St) :
+    parseStringLiteralInsensitive s l = .ok v s' ↔
+      ∃ p t, rem = p ++ t ∧ p.map charToAsciiLower = l ∧ s' = { s with rest := enc t, off := s.off + (enc p).length } ∧
+        At cs (pre ++ p) t s' :=
+  parseStringLiteralInsensitive_ok_iff hl hat
 
 /-! ### the PEG laws of the reference semantics, one by one -/
 
